@@ -312,7 +312,8 @@ class TimeBase(np.ndarray):
             return memo[id_b][-1]
 
         b = b if a.scale == b.scale else getattr(b, a.scale)
-        b_formatted = np.asarray(b) if a.fmt == b.fmt else getattr(b, a.fmt)
+        # Formats with several columns come as a tuple of columns, the array has one row per epoch (as in __new__)
+        b_formatted = np.asarray(b) if a.fmt == b.fmt else np.asarray(getattr(b, a.fmt)).T
         val = np.insert(np.asarray(a), pos, b_formatted, axis=0)
         jd1 = np.insert(a.jd1, pos, b.jd1)
         jd2 = np.insert(a.jd2, pos, b.jd2)
